@@ -81,11 +81,23 @@ Resolve(uattrs, uchords, bnames, key, fuel) ==
                   ELSE Resolve(uattrs, uchords, bnames, c.extends, fuel - 1)
        IN [ok |-> par.ok, bag |-> BagPlus(par.bag, own)]
 
+\* How `crd write` addresses a chord: the key (name or display symbol) finds an entry, and the notes are then looked up
+\* under that entry's NAME -- so that a name and every display symbol that ever stood for it are interchangeable, also
+\* after the name was defined again (parents named in `extends` are looked up directly).
+TopKey(uchords, bnames, key) ==
+  LET i == UserIdx(uchords, key) IN
+  IF i > 0 THEN uchords[i].name
+  ELSE IF key \in DOMAIN bnames THEN key
+  ELSE LET S == {n \in DOMAIN bnames : bnames[n] \in ChordSymbols /\ SymChars[bnames[n]] = key} IN
+       IF S = {} THEN key ELSE CHOOSE n \in S : TRUE
+ResolveTop(uattrs, uchords, bnames, key, fuel) == Resolve(uattrs, uchords, bnames, TopKey(uchords, bnames, key), fuel)
+
 Named(uattrs, uchords) == (\A i \in 1..Len(uattrs) : uattrs[i].name # <<>>) /\ (\A i \in 1..Len(uchords) : uchords[i].name # <<>>)
 NoDanglingAttr(uattrs, uchords) == \A i \in 1..Len(uchords) : \A j \in 1..Len(uchords[i].attrs) : AttrKnown(uattrs, uchords[i].attrs[j])
 NoDanglingExtends(uchords, bnames) == \A i \in 1..Len(uchords) : uchords[i].extends = <<>> \/ ChordKnown(uchords, bnames, uchords[i].extends)
-Acyclic(uattrs, uchords, bnames) ==
-  \A i \in 1..Len(uchords) : Resolve(uattrs, uchords, bnames, uchords[i].name, Len(uchords) + 1).ok
+Acyclic(uattrs, uchords, bnames) ==        \* from every key somebody can use: names and display symbols
+  \A i \in 1..Len(uchords) : /\ Resolve(uattrs, uchords, bnames, uchords[i].name, Len(uchords) + 1).ok
+                              /\ Resolve(uattrs, uchords, bnames, uchords[i].display, Len(uchords) + 1).ok
 Accept(uattrs, uchords, bnames) ==
   /\ Named(uattrs, uchords) /\ NoDanglingAttr(uattrs, uchords) /\ NoDanglingExtends(uchords, bnames)
   /\ Acyclic(uattrs, uchords, bnames)
